@@ -193,7 +193,7 @@ func Supervise(prop, tier string, seed int64) int {
 		} else {
 			bin := Self()
 			if st.Race && !RaceEnabled {
-				bin = filepath.Join(root, ".build", "vh-race")
+				bin = Self() + "-race"
 			}
 			cmd = exec.Command(bin, "worker", prop, st.Name, tier, strconv.FormatInt(seed, 10))
 			cmd.Dir = stScratch
